@@ -72,5 +72,8 @@ file_harness!(c05_file_errors, "10 X = \"A\"", "20 PRINT 1.2.3", "30 A$ = 5");
 // @verif prop=C05 tier=quick timeout=1200 mem=8000 cost=300 concrete=1 clause="an illegal multi-byte character: the reported range must lie on character boundaries" sample="10 PRINT (e-acute as an illegal character outside a string)" bounds="this 1-line file"
 file_harness!(c05_file_multibyte_illegal_character, "10 \u{e9}");
 
+// @verif prop=C05 tier=quick timeout=1200 mem=8000 cost=300 concrete=1 clause="unterminated string literal containing a multi-byte character: the reported range ends at the end of the line in bytes, on a character boundary" sample="10 PRINT (unterminated string h e-acute)" bounds="this 1-line file"
+file_harness!(c05_file_unterminated_multibyte_string, "10 PRINT \"h\u{e9}");
+
 // @verif prop=C05 tier=thorough timeout=1500 mem=10000 cost=400 concrete=1 clause="non-ASCII text inside strings and remarks, three definitions of one line" sample="10 PRINT (string with e-acute) / 10 REM (emoji) / 10 / 20 NEXT I" bounds="this 4-line file"
 file_harness!(c05_file_non_ascii_and_triple_definition, "10 PRINT \"\u{e9}\" + 1", "10 REM \u{1F60A}", "10", "20 NEXT I");
